@@ -1,14 +1,87 @@
-(* decoder/json.go  cutFieldsBySize (json_max_fields_size): the byte surgery only.
-   gjson (third-party) is NOT modelled: for each configured path the harness hands over what
-   gjson.GetBytes reported — Index (offset of the value's opening quote) and len(Str) (length of
-   the UNESCAPED string) — and the model performs findPos + the cut on those numbers.
+(* decoder/json.go  cutFieldsBySize (json_max_fields_size), as repaired by ed38629
+   ("json_max_fields_size must cut the escaped string, not at its unescaped length").
+   For each configured path the harness hands over what gjson.GetBytes reported that the model does
+   not compute itself: Index (offset of the value's opening quote) and len(Str) (length of the
+   UNESCAPED string; it only decides WHETHER the field is cut).  The raw (still escaped) text of the
+   string - gjson's v.Raw without its two quotes - is found by the model itself: a JSON string ends at
+   the first quote that is not preceded by an unpaired backslash ([json_raw_len]).  findPos, jsonCutKeep
+   and the cut are modelled line for line on those numbers.
    JSON decoding proper (insane-json) and protobuf decoding are library code: not modelled.
    No proofs here. *)
 From Verif Require Import Base.Sx Base.GoSem Model.Decoders.Common.
 
-(* findPos: start = Index + limit + 1, end = Index + len(Str); cut iff len(Str) > limit *)
-Definition json_cut_pos (index strlen limit : Z) : option (Z * Z) :=
-  if strlen <=? limit then None else Some (index + limit + 1, index + strlen).
+Definition BSLASH : byte := 92%N.
+Definition LOWER_U : byte := 117%N.
+
+(* the oracle values are inconsistent with the document (data[Index] is not a quote / the string that
+   starts there is not terminated): not a Go panic, but excluded by the same theorems *)
+Definition BadOracle {A} : res A := Panic 5.
+
+(* ---- len(v.Raw) - 2 ------------------------------------------------------------------------------ *)
+(* [l] = the document after the opening quote; length of the text before the closing quote *)
+Fixpoint json_raw_len (l : bytes) (i : Z) : option Z :=
+  match l with
+  | [] => None
+  | c :: r =>
+      if beq c QUOTE then Some i
+      else if beq c BSLASH then
+        match r with
+        | [] => None
+        | _ :: r' => json_raw_len r' (i + 2)
+        end
+      else json_raw_len r (i + 1)
+  end.
+
+Definition json_raw_len_at (data : bytes) (index : Z) : option Z :=
+  if (0 <=? index) && (index <? len data) then
+    match skipn (Z.to_nat index) data with
+    | q :: tail => if beq q QUOTE then json_raw_len tail 0 else None
+    | [] => None
+    end
+  else None.
+
+(* ---- jsonCutKeep ---------------------------------------------------------------------------------- *)
+(* the loop  for i < limit { ... }  with rest = content[i:].  content[i] beyond the end is Go's
+   index-out-of-range panic (unreachable from json_cut_keep, whose guard gives limit < len content) *)
+Definition json_keep_end (i limit : Z) : res Z := if limit <=? i then Ok limit else Panic 2.
+
+Fixpoint json_cut_keep_from (rest : bytes) (i limit : Z) : res Z :=
+  match rest with
+  | [] => json_keep_end i limit
+  | c :: r =>
+      if limit <=? i then Ok limit
+      else if negb (beq c BSLASH) then json_cut_keep_from r (i + 1) limit
+      else
+        match r with
+        | [] =>                                             (* i+1 < len(content) is false: n = 2 *)
+            if limit <? i + 2 then Ok i else json_keep_end (i + 2) limit
+        | u :: r1 =>
+            if beq u LOWER_U then                           (* n = 6 *)
+              if limit <? i + 6 then Ok i
+              else match r1 with
+                   | _ :: _ :: _ :: _ :: r2 => json_cut_keep_from r2 (i + 6) limit
+                   | _ => json_keep_end (i + 6) limit
+                   end
+            else                                            (* n = 2 *)
+              if limit <? i + 2 then Ok i else json_cut_keep_from r1 (i + 2) limit
+        end
+  end.
+
+Definition json_cut_keep (content : bytes) (limit : Z) : res Z :=
+  if len content <=? limit then Ok (len content) else json_cut_keep_from content 0 limit.
+
+(* ---- findPos --------------------------------------------------------------------------------------- *)
+(* !v.Exists() || v.Type != String are decided by the caller (the glue drops such paths);
+   start = Index + keep + 1, end = Index + rawLen; cut iff len(Str) > limit *)
+Definition json_cut_pos (data : bytes) (index strlen limit : Z) : res (option (Z * Z)) :=
+  if strlen <=? limit then Ok None
+  else match json_raw_len_at data index with
+       | None => BadOracle
+       | Some rawlen =>
+           content <- slice data (index + 1) (index + 1 + rawlen) ;;
+           keep <- json_cut_keep content limit ;;
+           Ok (Some (index + keep + 1, index + rawlen))
+       end.
 
 (* append(data[:start], data[end+1:]...) *)
 Definition json_cut_at (data : bytes) (pos : Z * Z) : res bytes :=
@@ -18,29 +91,177 @@ Definition json_cut_at (data : bytes) (pos : Z * Z) : res bytes :=
 
 (* the fast way: exactly one configured path *)
 Definition json_cut (data : bytes) (index strlen limit : Z) : res bytes :=
-  match json_cut_pos index strlen limit with
+  p <- json_cut_pos data index strlen limit ;;
+  match p with
   | None => Ok data
   | Some pos => json_cut_at data pos
   end.
 
-(* several paths: positions sorted by descending start, cut one after the other *)
+(* several paths: every position is found on the ORIGINAL document, then the positions are sorted by
+   descending start and cut one after the other *)
 Fixpoint insert_desc (p : Z * Z) (l : list (Z * Z)) : list (Z * Z) :=
   match l with
   | [] => [p]
   | q :: r => if fst q <? fst p then p :: l else q :: insert_desc p r
   end.
 Definition sort_desc (l : list (Z * Z)) : list (Z * Z) := fold_right insert_desc [] l.
+Fixpoint json_find_all (data : bytes) (found : list (Z * Z * Z)) : res (list (Z * Z)) :=
+  match found with
+  | [] => Ok []
+  | (index, strlen, limit) :: r =>
+      p <- json_cut_pos data index strlen limit ;;
+      ps <- json_find_all data r ;;
+      Ok (match p with Some p => p :: ps | None => ps end)
+  end.
 Fixpoint json_cut_all (data : bytes) (ps : list (Z * Z)) : res bytes :=
   match ps with
   | [] => Ok data
   | p :: r => d <- json_cut_at data p ;; json_cut_all d r
   end.
 Definition json_cut_many (data : bytes) (found : list (Z * Z * Z)) : res bytes :=
-  json_cut_all data
-    (sort_desc (flat_map (fun '(index, strlen, limit) =>
-                            match json_cut_pos index strlen limit with Some p => [p] | None => [] end) found)).
+  ps <- json_find_all data found ;;
+  json_cut_all data (sort_desc ps).
 
-(* what the clause "cut only the named string field and leave valid JSON" means at byte level:
-   the document is  pre "raw" post  and the result is  pre "<a prefix of raw>" post *)
+(* ---- what the clause means at byte level ---------------------------------------------------------- *)
+(* the escaped content of a valid JSON string (RFC 8259 string grammar, UTF-8 well-formedness aside, as
+   for encoding/json.Valid and gjson.Valid): no bare quote, no control character, every backslash
+   starts a two-byte escape (backslash + one of  quote \ / b f n r t)  or a six-byte escape  \uXXXX *)
+Definition is_hex (c : byte) : bool :=
+  ((48 <=? c) && (c <=? 57) || (65 <=? c) && (c <=? 70) || (97 <=? c) && (c <=? 102))%N.
+Definition is_simple_escape (c : byte) : bool :=
+  mem_byte c [34; 92; 47; 98; 102; 110; 114; 116]%N.
+
+Fixpoint esc_valid (l : bytes) : bool :=
+  match l with
+  | [] => true
+  | c :: r =>
+      if beq c QUOTE then false
+      else if (c <? 32)%N then false
+      else if beq c BSLASH then
+        match r with
+        | [] => false
+        | e :: r1 =>
+            if beq e LOWER_U then
+              match r1 with
+              | h1 :: h2 :: h3 :: h4 :: r2 => is_hex h1 && is_hex h2 && is_hex h3 && is_hex h4 && esc_valid r2
+              | _ => false
+              end
+            else is_simple_escape e && esc_valid r1
+        end
+      else esc_valid r
+  end.
+
+(* how many bytes of the raw text of a string survive: all of them when the unescaped length fits *)
+Definition json_kept (raw : bytes) (strlen limit : Z) : nat :=
+  if strlen <=? limit then length raw
+  else match json_cut_keep raw limit with Ok k => Z.to_nat k | _ => length raw end.
+
+(* the document is  pre "raw" post  and the result is  pre "<a prefix of raw>" post *)
 Definition cut_keeps_framing (pre raw post out : bytes) : Prop :=
   exists k, out = pre ++ QUOTE :: firstn k raw ++ QUOTE :: post.
+
+(* a document with several string values:  pre "raw1" post1 "raw2" post2 ... *)
+Fixpoint json_fields_doc (fs : list (bytes * bytes)) : bytes :=
+  match fs with
+  | [] => []
+  | (raw, post) :: r => QUOTE :: raw ++ QUOTE :: post ++ json_fields_doc r
+  end.
+
+(* several limited strings: (raw text, the bytes that follow it up to the next one, len(Str), limit);
+   the document, what gjson reports for them (the first opening quote is at offset [at_]), the result *)
+Definition jfield : Type := bytes * bytes * Z * Z.
+Definition jf_doc (fs : list jfield) : bytes :=
+  json_fields_doc (map (fun '(raw, post, _, _) => (raw, post)) fs).
+Definition jf_cut (fs : list jfield) : bytes :=
+  json_fields_doc (map (fun '(raw, post, strlen, limit) => (firstn (json_kept raw strlen limit) raw, post)) fs).
+Fixpoint jf_found (at_ : Z) (fs : list jfield) : list (Z * Z * Z) :=
+  match fs with
+  | [] => []
+  | (raw, post, strlen, limit) :: r => (at_, strlen, limit) :: jf_found (at_ + len raw + 2 + len post) r
+  end.
+Definition jf_ok (f : jfield) : Prop :=
+  let '(raw, _, _, limit) := f in esc_valid raw = true /\ 0 <= limit.
+
+(* the strings of fs shortened to their first ks bytes *)
+Fixpoint cut_doc (fs : list (bytes * bytes)) (ks : list nat) : bytes :=
+  match fs, ks with
+  | (raw, post) :: r, k :: ks' => QUOTE :: firstn k raw ++ QUOTE :: post ++ cut_doc r ks'
+  | _, _ => []
+  end.
+Definition jf_pairs (fs : list jfield) : list (bytes * bytes) := map (fun '(raw, post, _, _) => (raw, post)) fs.
+
+(* ---- the executable form of "only the named strings were shortened" (the runner's verdict) ------- *)
+(* [fs] = the named strings in document order with the bytes that follow each;
+   true iff out = "p1" post1 "p2" post2 ... for some prefixes p_i of raw_i *)
+Fixpoint strip_prefix (p l : bytes) : option bytes :=
+  match p, l with
+  | [], _ => Some l
+  | _ :: _, [] => None
+  | a :: p', b :: l' => if beq a b then strip_prefix p' l' else None
+  end.
+
+(* out = <a prefix of raw> QUOTE post out' with [k out'] *)
+Fixpoint field_framed (k : bytes -> bool) (post raw out : bytes) : bool :=
+  (match strip_prefix (QUOTE :: post) out with
+   | Some out' => k out'
+   | None => false
+   end)
+  || match raw, out with
+     | c :: raw', d :: out' => beq c d && field_framed k post raw' out'
+     | _, _ => false
+     end.
+
+Fixpoint fields_framed (fs : list (bytes * bytes)) (out : bytes) : bool :=
+  match fs with
+  | [] => match out with [] => true | _ :: _ => false end
+  | (raw, post) :: r =>
+      match out with
+      | q :: out0 => beq q QUOTE && field_framed (fields_framed r) post raw out0
+      | [] => false
+      end
+  end.
+
+(* the named strings of a document: (index, raw length), ascending and without duplicates *)
+Fixpoint insert_asc (p : Z * Z) (l : list (Z * Z)) : list (Z * Z) :=
+  match l with
+  | [] => [p]
+  | q :: r => if fst p <? fst q then p :: l else if fst p =? fst q then l else q :: insert_asc p r
+  end.
+
+(* split data (which starts at offset [at]) at the named strings; None when they overlap or lie outside *)
+Fixpoint split_fields (data : bytes) (at_ : Z) (strs : list (Z * Z)) : option (bytes * list (bytes * bytes)) :=
+  match strs with
+  | [] => Some (data, [])
+  | (index, rawlen) :: r =>
+      let n := Z.to_nat (index - at_) in
+      if (at_ <=? index) && (0 <=? rawlen) && (index - at_ + rawlen + 2 <=? len data) then
+        let pre := firstn n data in
+        let raw := firstn (Z.to_nat rawlen) (skipn (S n) data) in
+        let rest := skipn (S (S n) + Z.to_nat rawlen) data in
+        match split_fields rest (index + rawlen + 2) r with
+        | Some (post, fs) => Some (pre, (raw, post) :: fs)
+        | None => None
+        end
+      else None
+  end.
+
+Definition json_named_strings (data : bytes) (found : list (Z * Z * Z)) : option (list (Z * Z)) :=
+  fold_right (fun '(index, _, _) acc =>
+                match acc, json_raw_len_at data index with
+                | Some l, Some rawlen => Some (insert_asc (index, rawlen) l)
+                | _, _ => None
+                end) (Some []) found.
+
+Definition json_cut_framed (data : bytes) (found : list (Z * Z * Z)) (out : bytes) : option bool :=
+  match json_named_strings data found with
+  | Some strs =>
+      match split_fields data 0 strs with
+      | Some (pre, fs) =>
+          Some (match strip_prefix pre out with
+                | Some out' => fields_framed fs out'
+                | None => false
+                end)
+      | None => None
+      end
+  | None => None
+  end.
